@@ -22,6 +22,7 @@
 (*   lmk    v = [a, b]    lcat  v = l + [a]    llen v = len(l)             *)
 (*   lget   v = l[<index literal>]         assert assert c                 *)
 (*   tpat   (v, w) = (a, b)  -- tuple pattern; defines v<n> only (= a)     *)
+(*   uprint u = print! "<text>"  -- unused definition with a side effect     *)
 (* A raising statement (ZeroDivisionError, IndexError, AssertionError)     *)
 (* ends the program.                                                       *)
 (***************************************************************************)
@@ -46,7 +47,7 @@ N == Len(prog)
 Idx(t) == {i \in 1..N : env[i].t = t}
 IntLike == Idx("int")
 Small(i) == SmallInt(env[i].v)
-NPrints == Cardinality({i \in 1..N : prog[i].k \in {"print", "ifp"}})
+NPrints == Cardinality({i \in 1..N : prog[i].k \in {"print", "ifp", "uprint"}})
 
 RECURSIVE Join(_, _)
 Join(xs, sep) == IF xs = <<>> THEN "" ELSE IF Len(xs) = 1 THEN xs[1] ELSE xs[1] \o sep \o Join(Tail(xs), sep)
@@ -90,6 +91,10 @@ Interp(a, s) ==
 PrintS(a) ==
   /\ Go /\ "print" \in Templates /\ a \in 1..N /\ env[a].t # "none" /\ NPrints < MaxPrints
   /\ Push(Stmt("print", "", a, 0, 0, ""), None) /\ out' = Append(out, ShowV(env[a])) /\ UNCHANGED status
+\* an unused private definition whose right-hand side has a side effect:  u<n> = print! "<s>"
+UPrint(s) ==
+  /\ Go /\ "uprint" \in Templates /\ NPrints < MaxPrints
+  /\ Push(Stmt("uprint", "", 0, 0, 0, s), None) /\ out' = Append(out, s) /\ UNCHANGED status
 IfP(c, a, b) ==
   /\ Go /\ "ifp" \in Templates /\ c \in Idx("bool") /\ a \in IntLike /\ b \in IntLike /\ NPrints < MaxPrints
   /\ Push(Stmt("ifp", "", a, b, c, ""), None)
@@ -134,7 +139,7 @@ CmpOpsP == {"==", "!=", "<", "<=", ">", ">="}
 Next ==
   \/ \E l \in IntLits : ILit(l)
   \/ \E f \in FloatLits : FLit(f)
-  \/ \E s \in StrLits : SLit(s) \/ \E a \in 1..N : Interp(a, s)
+  \/ \E s \in StrLits : SLit(s) \/ UPrint(s) \/ \E a \in 1..N : Interp(a, s)
   \/ \E a, b \in 1..N :
         \/ \E op \in {"+", "-", "*", "//", "%"} : Bin(op, a, b)
         \/ \E op \in {"+", "-", "*"} : FBin(op, a, b)
@@ -156,6 +161,6 @@ PairShape == /\ \A i \in 1..N : (i <= 2 <=> prog[i].k = "ilit")
              /\ (N >= 3 => prog[3].a = 1 /\ prog[3].b = 2)
              /\ (N >= 4 => prog[4].k = "print" /\ prog[4].a = 3)
 
-Complete == N > 0 /\ (status # "ok" \/ prog[N].k \in {"print", "ifp"})
+Complete == N > 0 /\ (status # "ok" \/ prog[N].k \in {"print", "ifp", "uprint"})
 Emit == Complete => PrintT(<<"G", ToJson([prog |-> prog, out |-> out, status |-> status])>>)
 =============================================================================
